@@ -37,9 +37,16 @@ def CInv (t : Table) : Prop :=
 def LOwn (t : Table) (owned : List Fd) : Prop :=
   ∀ s ∈ t.socks, s.listen.isSome = true → s.fd ∈ owned ∧ s.tcb = none ∧ s.tcp = true ∧ s.fdClosed = false
 
+/-- accept-queue entries are fds below the counter, and a socket with such an fd has a TCB
+    (so, by `LOwn`, it is not itself a listener) -/
+def RInv (t : Table) : Prop :=
+  ∀ l ∈ t.socks, ∀ rd, l.listen = some rd → ∀ y ∈ rd,
+    y < t.nextId ∧ ∀ s ∈ t.socks, s.fd = y → s.tcb.isSome = true
+
 structure Live (k : Kernel) (owned : List Fd) : Prop where
   tinv : TInv k.tbl
   cinv : CInv k.tbl
+  rinv : RInv k.tbl
   lown : LOwn k.tbl owned
   live : ∀ s ∈ k.tbl.socks, LiveSock k.tbl owned s
   fix : k.fixReap = true
@@ -258,17 +265,86 @@ theorem cinv_insertConn (t : Table) (l r : Ep) (fd : Fd) (hlt : fd < t.nextId)
   · exact ⟨hlt, hb⟩
   · exact h c hc'
 
+/-! ### the accept queues under the primitives -/
+
+open Table in
+theorem rinv_modify (t : Table) (fd : Fd) (f : Sock → Sock) (hfd : ∀ s, (f s).fd = s.fd)
+    (htcb : ∀ s, s.tcb.isSome = true → (f s).tcb.isSome = true)
+    (hq : ∀ s ∈ t.socks, s.fd = fd → ∀ rd', (f s).listen = some rd' → ∀ y ∈ rd',
+      y < t.nextId ∧ ∀ s2 ∈ t.socks, s2.fd = y → s2.tcb.isSome = true)
+    (h : RInv t) : RInv (t.modify fd f) := by
+  have key : ∀ y, (y < t.nextId ∧ ∀ s2 ∈ t.socks, s2.fd = y → s2.tcb.isSome = true) →
+      (y < (t.modify fd f).nextId ∧ ∀ s2 ∈ (t.modify fd f).socks, s2.fd = y → s2.tcb.isSome = true) := by
+    intro y ⟨h1, h2⟩
+    refine ⟨h1, ?_⟩
+    intro s2' hs2' hy
+    rw [modify_socks, List.mem_map] at hs2'
+    obtain ⟨s2, hs2, rfl⟩ := hs2'
+    rw [modFn_fd fd f hfd] at hy
+    have := h2 s2 hs2 hy
+    unfold modFn
+    split
+    · exact htcb s2 this
+    · exact this
+  intro l' hl' rd hrd y hy
+  rw [modify_socks, List.mem_map] at hl'
+  obtain ⟨l, hl, rfl⟩ := hl'
+  apply key
+  by_cases hlf : l.fd = fd
+  · rw [modFn_eq fd f l hlf] at hrd
+    exact hq l hl hlf rd hrd y hy
+  · rw [modFn_ne fd f l hlf] at hrd
+    exact h l hl rd hrd y hy
+
+/-- the common case: `listen` is left alone -/
+theorem rinv_modify_keep (t : Table) (fd : Fd) (f : Sock → Sock) (hfd : ∀ s, (f s).fd = s.fd)
+    (htcb : ∀ s, s.tcb.isSome = true → (f s).tcb.isSome = true) (hl : ∀ s, (f s).listen = s.listen)
+    (h : RInv t) : RInv (t.modify fd f) :=
+  rinv_modify t fd f hfd htcb (fun s hs _ rd' hrd y hy => h s hs rd' (by rw [← hl]; exact hrd) y hy) h
+
+theorem rinv_remove (t : Table) (fd : Fd) (h : RInv t) : RInv (t.remove fd) := by
+  intro l hl rd hrd y hy
+  simp only [Table.remove, List.mem_filter] at hl
+  obtain ⟨h1, h2⟩ := h l hl.1 rd hrd y hy
+  refine ⟨h1, ?_⟩
+  intro s hs hfd
+  simp only [Table.remove, List.mem_filter] at hs
+  exact h2 s hs.1 hfd
+
+theorem rinv_insertWith (t : Table) (mk : Fd → Sock) (hml : ∀ n, (mk n).listen = none) (h : RInv t) :
+    RInv (t.insertWith mk).1 := by
+  intro l hl rd hrd y hy
+  simp only [Table.insertWith, List.mem_cons] at hl
+  rcases hl with rfl | hl
+  · simp [hml] at hrd
+  · obtain ⟨h1, h2⟩ := h l hl rd hrd y hy
+    refine ⟨Nat.lt_succ_of_lt h1, ?_⟩
+    intro s hs hfd
+    simp only [Table.insertWith, List.mem_cons] at hs
+    rcases hs with rfl | hs
+    · have h3 : t.nextId = y := hfd
+      rw [← h3] at h1
+      exact absurd h1 (Nat.lt_irrefl _)
+    · exact h2 s hs hfd
+
+theorem rinv_congr {t t' : Table} (hs : t'.socks = t.socks) (hn : t'.nextId = t.nextId) (h : RInv t) :
+    RInv t' := by
+  intro l hl rd hrd y hy
+  rw [hs] at hl
+  rw [hs, hn]
+  exact h l hl rd hrd y hy
+
 /-! ### assembling a step -/
 
 /-- One kernel step, given: the new table satisfies the index invariants, extends the old one,
     and every socket of the new table is an old socket that keeps its owner, or is shown live
     (and, if it listens, owned) directly. -/
 theorem live_step {k k' : Kernel} {o o' : List Fd} (h : Live k o) (hfix : k'.fixReap = true)
-    (ht : TInv k'.tbl) (hc : CInv k'.tbl) (hext : Extends k.tbl k'.tbl o')
+    (ht : TInv k'.tbl) (hc : CInv k'.tbl) (hr : RInv k'.tbl) (hext : Extends k.tbl k'.tbl o')
     (hs : ∀ s' ∈ k'.tbl.socks, (s' ∈ k.tbl.socks ∧ (s'.fd ∈ o → s'.fd ∈ o')) ∨
       (LiveSock k'.tbl o' s' ∧ (s'.listen.isSome = true → s'.fd ∈ o' ∧ s'.tcb = none ∧ s'.tcp = true ∧ s'.fdClosed = false))) :
     Live k' o' := by
-  refine ⟨ht, hc, ?_, ?_, hfix⟩
+  refine ⟨ht, hc, hr, ?_, ?_, hfix⟩
   · intro s' hs' hl
     rcases hs s' hs' with ⟨hold, hsub⟩ | ⟨_, hnew⟩
     · obtain ⟨h1, h2, h3, h4⟩ := h.lown s' hold hl
